@@ -34,6 +34,7 @@ func runC02(c *Ctx) {
 	importRules(c, "C16", runC16, "C02-RULESRC", "the rules evaluated for a field are the tag rules or the override that applies to that object: unscoped overrides only for the outermost object (rules C16-SCOPE, C16-REPLACE)", 2, ruleIn("C16-SCOPE", "C16-REPLACE"))
 	importRules(c, "C03", runC03, "C02-REQUIRED", "a violated 'required' is reported: for every kind and every combination of zero value / empty collection the built-in required of each walker writes its clause exactly when the value is zero or an empty slice/array/map (rule C03-REQ) — a kind whose zero value is not recognised yields no clause although the rule is violated", 4, ruleIn("C03-REQ"))
 	importRules(c, "C03", runC03Seen, "C02-MISSING-ONCE", "a key present in the input is reported by its own rules only: the missing-key reporter skips every key seen in the input, and every iteration records its key (rule C03-SEEN) — otherwise a bare key is reported twice", 3, nil)
+	importRules(c, "C18", runC18, "C02-SKEL", "every rule item of a field is looked up under its own key part and either answered by an error clause (unknown name), handled as a built-in, or handed to the function found — the same skeleton in all four walkers (rule C18-SKEL): a lookup that normalises the name while the built-in dispatch does not lets an item such as ' required' fall between the two and vanish without a clause", 4, ruleIn("C18-SKEL"))
 	importRules(c, "C18", runC18, "C02-URLPARAMS", "every parameter of a URL reaches its rules with its own, whole value: the query is cut at the first '?', at '&' and at the first '=' of the caller's text, and no further delimiter is looked for in text that was already percent-decoded (rule C18-URL) — a value cut short, or the parameters behind it lost, yields a clause for a satisfied rule or none for a violated one", 3, ruleIn("C18-URL"))
 	importRules(c, "C17", runC17, "C02-GROUP", "cross-field group clauses are one per violated group of one object and name every member by its object path, and are written last, after the whole input has been walked (rules C17-KEY, C17-EVAL, C17-WHEN): members are registered under the walker's current path, not a type name; the evaluation never runs between two walks", 5, ruleIn("C17-KEY", "C17-EVAL", "C17-WHEN"))
 }
